@@ -104,17 +104,17 @@ elif os.getenv('USERNAME') is not None:
 
 
 def register_code(code_class):
-    label = code_class.__class__.__name__
+    label = code_class.__name__
     CODES[label] = code_class
 
 
 def register_error_model(error_model_class):
-    label = error_model_class.__class__.__name__
+    label = error_model_class.__name__
     ERROR_MODELS[label] = error_model_class
 
 
 def register_decoder(decoder_class):
-    label = decoder_class.__class__.__name__
+    label = decoder_class.__name__
     DECODERS[label] = decoder_class
 
 
